@@ -169,6 +169,11 @@ func (vc *VC) exec(st *State, s ast.Stmt) *State {
 		}
 		return st
 	case *ast.IncDecStmt:
+		if len(vc.anchoredNodes[s]) > 0 {
+			pre := st.clone()
+			vc.nodeAnchors(st, s, "before", nil, pre)
+			defer vc.nodeAnchors(st, s, "after", nil, pre)
+		}
 		x := vc.eval(st, s.X)
 		d := IntLit(1)
 		var v Term
@@ -835,6 +840,9 @@ func (vc *VC) execRange(st *State, s *ast.RangeStmt, label string) *State {
 		body.assume(app(SBool, "<", i, n))
 		if valObj != nil && kind == "slice" {
 			v := vc.sliceIndex(body, x, i, elemSort)
+			if isProtoMsgPtr(valObj.Type()) {
+				body.assume(Not(Eq(v, IntLit(0)))) // protobuf: repeated message fields hold no nil elements
+			}
 			if isStructVal(valObj.Type()) {
 				v = vc.copyStruct(body, valObj.Type(), v)
 			}
